@@ -2255,7 +2255,7 @@ AUTOPOP_VIOLATIONS = ["unknown_method", "server_streaming", "client_streaming", 
                       "bytes_field", "unannotated", "other_format", "duplicate_selector", "unknown_field", "message_field",
                       "duplicate_selector_long_running_only", "duplicate_selector_empty_fields", "duplicate_of_unpopulated",
                       "required_after_other_behavior", "required_before_other_behavior",
-                      "leading_dot_selector", "leading_dot_duplicate"]
+                      "leading_dot_selector", "leading_dot_duplicate", "repeated_string_field"]
 
 
 def autopop_api(rng, name, violation=None, plant=True, subpkg=False, selective=False):
@@ -2291,6 +2291,8 @@ def autopop_api(rng, name, violation=None, plant=True, subpkg=False, selective=F
     fo.options.Extensions[field_info_pb2.field_info].format = field_info_pb2.FieldInfo.IPV4
     q.field("sub_id", P + ".Sub", uuid4=True)
     q.field("third_id", "string", uuid4=True)
+    # a LIST of strings annotated UUID4 is not "a string field": it cannot hold one request id
+    q.field("id_list", "string", repeated=True, uuid4=True)
     from google.api import field_behavior_pb2 as fb
     # REQUIRED next to other behaviors (the option is a list), and other behaviors alone
     q.field("immutable_required_id", "string", uuid4=True, behaviors=[fb.IMMUTABLE, fb.REQUIRED])
@@ -2339,6 +2341,7 @@ def autopop_api(rng, name, violation=None, plant=True, subpkg=False, selective=F
         "leading_dot_selector": {"selector": f".{S}.Untouched", "auto_populated_fields": ["request_id"]},
         "leading_dot_duplicate": {"selector": f".{S}.Create", "auto_populated_fields": ["third_id"]},
         "unknown_field": {"selector": f"{S}.Untouched", "auto_populated_fields": ["no_such_field"]},
+        "repeated_string_field": {"selector": f"{S}.Untouched", "auto_populated_fields": ["id_list"]},
         "message_field": {"selector": f"{S}.Untouched", "auto_populated_fields": ["sub_id"]},
     }
     roll = rng.random()
